@@ -108,6 +108,9 @@ func c17bRunInBubble(c c17bCase) (out Outcome) {
 				r.Transient = append(r.Transient, sim.Exc{Class: c.Class})
 			}
 		}
+	case "meta-notserving":
+		// ZooKeeper keeps naming a server that is up but does not serve hbase:meta
+		cl.ZKMetaAddr = "rs2:16020"
 	case "meta-down":
 		cl.Servers["rs1:16020"].Down = true
 	case "zk-error":
@@ -238,6 +241,9 @@ func c17bRunInBubble(c c17bCase) (out Outcome) {
 				times = append(times, d.T)
 			}
 		}
+	case "meta-notserving":
+		what = "ZooKeeper lookups of hbase:meta (the server named there answers NotServingRegion)"
+		times = zkTimes
 	case "zk-error":
 		what = "ZooKeeper lookups"
 		times = zkTimes
@@ -316,7 +322,7 @@ func TestC17_RetrySchedule(t *testing.T) {
 			"within 100 virtual ms of its cancellation. Non-trivial = >= 4 consecutive attempts observed; distinct by case hash")
 	Drive(t, rec, true, func(t *rapid.T) c17bCase {
 		c := c17bCase{
-			Scenario:        rapid.SampledFrom([]string{"retry-class", "retry-class", "conn-drop", "dial-fail", "probe-drop", "probe-fail", "meta-down", "zk-error", "zk-hang", "meta-hang"}).Draw(t, "scenario"),
+			Scenario:        rapid.SampledFrom([]string{"retry-class", "retry-class", "conn-drop", "dial-fail", "probe-drop", "probe-fail", "meta-down", "meta-notserving", "zk-error", "zk-hang", "meta-hang"}).Draw(t, "scenario"),
 			LookupTimeoutMS: rapid.SampledFrom([]int{20, 200, 1000, 30000}).Draw(t, "lookuptimeout"),
 			Batch:           rapid.SampledFrom([]int{0, 0, 1, 2, 3, 8}).Draw(t, "batch"),
 			Key:             evid.B(rapid.SampledFrom([]string{"a", "m", "z", ""}).Draw(t, "key")),
